@@ -121,6 +121,9 @@ class Ctx:
             return False
 
     def qset(self, s) -> str:
+        for v in s:
+            if not self.is_const(v):
+                raise Unencodable(f"set element {v!r} is not of the tree's ordered sort")
         items = sorted(s, key=lambda v: (Fraction(v) if isinstance(v, (bool, int, float)) else self.strrank[v]))
         return "[" + "; ".join(self.q(v) for v in items) + "]"
 
